@@ -11,7 +11,12 @@ use std::io::Read;
 use std::os::unix::fs::PermissionsExt;
 use std::os::unix::process::CommandExt;
 
-const OLD: &[u8] = b"OLD-CONTENT-";
+/// Previous content of the "non-empty" / "unwritable" initial states: longer than
+/// anything the sinks write in the mode cases, so that an overwrite that does not
+/// truncate leaves a visible stale tail.
+fn old_content() -> Vec<u8> {
+    (0..5000u32).map(|i| b'a' + (i % 23) as u8).collect()
+}
 
 fn mode_of(s: &str) -> Mode {
     match s {
@@ -66,8 +71,8 @@ pub fn modes_child(args: &[String]) -> i32 {
     }
     let content = std::fs::read(path).ok();
     println!("{}", json!({"open_ok": open_ok, "content_len": content.as_ref().map(|c| c.len()), "is_new": content.as_deref() == Some(&new_bytes[..]),
-        "is_old_plus_new": content.as_ref().map(|c| c.len() == OLD.len() + new_bytes.len() && c.starts_with(OLD) && c.ends_with(&new_bytes)),
-        "is_old": content.as_deref() == Some(OLD)}));
+        "is_old_plus_new": content.as_ref().map(|c| c.len() == old_content().len() + new_bytes.len() && c.starts_with(&old_content()) && c.ends_with(&new_bytes)),
+        "is_old": content.as_deref() == Some(&old_content()[..])}));
     0
 }
 
@@ -84,10 +89,10 @@ fn modes(rep: &mut Report) {
                 let path = dir.path().join("out.bin");
                 match initial {
                     "empty" => std::fs::write(&path, b"").unwrap(),
-                    "non-empty" => std::fs::write(&path, OLD).unwrap(),
+                    "non-empty" => std::fs::write(&path, old_content()).unwrap(),
                     "directory" => std::fs::create_dir(&path).unwrap(),
                     "unwritable" => {
-                        std::fs::write(&path, OLD).unwrap();
+                        std::fs::write(&path, old_content()).unwrap();
                         std::fs::set_permissions(&path, std::fs::Permissions::from_mode(0o444)).unwrap();
                     }
                     _ => {}
